@@ -72,7 +72,7 @@ def gen_list(rng, n, ntomo):
 class C05(Property):
     ID = "C05"
     SESSIONS = ["s0", "s1"]
-    RUNS = {"quick": (350, 150), "thorough": (8000, 3000)}
+    RUNS = {"quick": (4000, 1500), "thorough": (100000, 30000)}
 
     def config(self, rng, tier, faulty):
         cfg = {
